@@ -73,6 +73,12 @@ class Table(object):
         self.blobdata = {}
         self.virtual = {}       # blob id -> declared length of a content that is never materialised
         for bid, spec in self.blobs.items():
+            if isinstance(spec, dict) and 'sha' in spec:
+                # recorded content that was too large to keep: known by length and SHA-256 only
+                self.virtual[bid] = spec['len']
+                self.blobdata[bid] = b''
+                self.sha[spec['sha']] = bid
+                continue
             if isinstance(spec, dict) and spec.get('virtual'):
                 self.virtual[bid] = spec['len']
                 self.blobdata[bid] = b''
